@@ -117,9 +117,20 @@ type Net struct {
 	AfterStep func(d *Dgram)
 	cause     *Dgram
 
+	// Describe renders a datagram for the event log (default: transport message type).
+	Describe func(b []byte) string
+
 	Quiet bool // do not log every datagram (cheap scenarios log their own events)
 
 	Sent, Delivered, Dropped int64
+	// Digest folds every datagram event (also in Quiet mode) so that the
+	// run hash distinguishes network schedules.
+	Digest uint64
+}
+
+func (n *Net) fold(kind byte, d *Dgram) {
+	h := n.Digest ^ uint64(kind) ^ d.ID<<8 ^ uint64(len(d.Data))<<40 ^ uint64(n.r.Now())
+	n.Digest = splitmix(h)
 }
 
 // NewNet creates the network and starts its dispatcher inside the bubble.
@@ -199,6 +210,33 @@ func typeName(b []byte) string {
 	return fmt.Sprintf("%02x", b[0])
 }
 
+func (n *Net) describe(b []byte) string {
+	if n.Describe != nil {
+		return n.Describe(b)
+	}
+	return typeName(b)
+}
+
+// FrameDesc renders a tube frame header.
+func FrameDesc(b []byte) string {
+	if len(b) < 12 {
+		return fmt.Sprintf("short-frame(%d)", len(b))
+	}
+	fl := ""
+	for i, n := range []string{"REQ", "RESP", "REL", "ACK", "FIN", "RTR"} {
+		if b[1]&(1<<i) != 0 {
+			fl += n + "|"
+		}
+	}
+	dl := int(b[2])<<8 | int(b[3])
+	if b[1]&3 != 0 {
+		return fmt.Sprintf("tube%d[%s] init type=%d dl=%d", b[0], fl, b[4], dl)
+	}
+	ack := uint32(b[4])<<24 | uint32(b[5])<<16 | uint32(b[6])<<8 | uint32(b[7])
+	fno := uint32(b[8])<<24 | uint32(b[9])<<16 | uint32(b[10])<<8 | uint32(b[11])
+	return fmt.Sprintf("tube%d[%s] ack=%d frame=%d dl=%d", b[0], fl, ack, fno, dl)
+}
+
 // process applies the fault model to one transmission (dispatcher goroutine).
 func (n *Net) process(d *Dgram) {
 	r := n.r
@@ -209,8 +247,9 @@ func (n *Net) process(d *Dgram) {
 	}
 	d.Cause = n.cause
 	n.Sent++
+	n.fold('t', d)
 	if !n.Quiet {
-		r.Logf("tx #%d %s>%s %s len=%d", d.ID, d.Src, d.Dst, typeName(d.Data), len(d.Data))
+		r.Logf("tx #%d %s>%s %s len=%d", d.ID, d.Src, d.Dst, n.describe(d.Data), len(d.Data))
 	}
 	if n.OnSend != nil {
 		n.OnSend(d)
@@ -369,8 +408,9 @@ func (n *Net) deliver(d *Dgram) {
 	select {
 	case ep.inbox <- d:
 		n.Delivered++
+		n.fold('r', d)
 		if !n.Quiet {
-			n.r.Logf("rx #%d.%d %s>%s %s len=%d %s", d.ID, d.Copy, d.From, d.Dst, typeName(d.Data), len(d.Data), d.Mut)
+			n.r.Logf("rx #%d.%d %s>%s %s len=%d %s", d.ID, d.Copy, d.From, d.Dst, n.describe(d.Data), len(d.Data), d.Mut)
 		}
 	default:
 		n.Dropped++
